@@ -99,8 +99,8 @@ type Spec struct {
 	Steps      []Step   `json:"steps"`
 
 	// labels for the fingerprint
-	confirmTimings map[string]bool
-	triggerKinds   map[string]bool
+	ConfirmTimings map[string]bool `json:"confirm_timings"`
+	TriggerKinds   map[string]bool `json:"trigger_kinds"`
 }
 
 // Shapes lists the DAG shape classes.
@@ -306,7 +306,7 @@ func (b *builder) submit(t int, async bool) {
 
 func (b *builder) confirm(t int, async bool, timing string) {
 	b.add(Step{Op: "confirm", Tx: t, Async: async})
-	b.sp.confirmTimings[timing] = true
+	b.sp.ConfirmTimings[timing] = true
 	if !b.stopped {
 		delete(b.pend, t)
 	}
@@ -328,13 +328,13 @@ func (b *builder) modelRound() {
 func (b *builder) round() {
 	if b.sp.Tick {
 		b.add(Step{Op: "tickwait", K: 1})
-		b.sp.triggerKinds["tick"] = true
+		b.sp.TriggerKinds["tick"] = true
 		b.modelRound()
 		b.modelRound()
 		return
 	}
 	b.add(Step{Op: "round"})
-	b.sp.triggerKinds["idle"] = true
+	b.sp.TriggerKinds["idle"] = true
 	b.modelRound()
 }
 
@@ -381,7 +381,7 @@ func (b *builder) postStopOps() {
 			b.add(Step{Op: "submit", Tx: b.rng.Intn(len(b.sp.Txs)), Async: true})
 		} else {
 			b.add(Step{Op: "confirm", Tx: b.confirmTarget(), Async: true})
-			b.sp.confirmTimings["after-stop"] = true
+			b.sp.ConfirmTimings["after-stop"] = true
 		}
 	}
 	b.add(Step{Op: "join"})
@@ -391,7 +391,7 @@ func (b *builder) postStopOps() {
 func Gen(seed int64, i int) *Spec {
 	rng := rand.New(rand.NewSource(seed*1000003 + int64(i)*7919 + 17))
 	sp := &Spec{Seed: seed, Case: i,
-		confirmTimings: map[string]bool{}, triggerKinds: map[string]bool{}}
+		ConfirmTimings: map[string]bool{}, TriggerKinds: map[string]bool{}}
 	sp.Shape = Shapes[rng.Intn(len(Shapes))]
 	sp.Tick = rng.Intn(8) == 0
 	sp.IntervalMs = 15 + rng.Intn(25)
@@ -464,7 +464,7 @@ func Gen(seed int64, i int) *Spec {
 			// confirmation racing with the trigger.
 			b.confirm(b.confirmTarget(), true, "racing-trigger")
 			b.add(Step{Op: "block", Async: true})
-			sp.triggerKinds["racing"] = true
+			sp.TriggerKinds["racing"] = true
 			b.add(Step{Op: "join"})
 			b.add(Step{Op: "settle"})
 			b.modelRound()
@@ -477,10 +477,10 @@ func Gen(seed int64, i int) *Spec {
 			}
 			b.add(Step{Op: "hold", K: k})
 			if sp.Tick {
-				sp.triggerKinds["tick"] = true
+				sp.TriggerKinds["tick"] = true
 			} else {
 				b.add(Step{Op: "block"})
-				sp.triggerKinds["idle"] = true
+				sp.TriggerKinds["idle"] = true
 			}
 			b.add(Step{Op: "waitheld"})
 			nops := 1 + rng.Intn(3)
@@ -488,7 +488,7 @@ func Gen(seed int64, i int) *Spec {
 				switch r := rng.Intn(10); {
 				case r < 4 && !sp.Tick:
 					b.add(Step{Op: "block"})
-					sp.triggerKinds["busy"] = true
+					sp.TriggerKinds["busy"] = true
 				case r < 7:
 					b.confirm(b.confirmTarget(), false, "during-round")
 				default:
@@ -525,7 +525,7 @@ func Gen(seed int64, i int) *Spec {
 			// first round still running.
 			b.add(Step{Op: "block"})
 			b.add(Step{Op: "block"})
-			sp.triggerKinds["double"] = true
+			sp.TriggerKinds["double"] = true
 			b.add(Step{Op: "settle"})
 			b.modelRound()
 
@@ -543,7 +543,7 @@ func Gen(seed int64, i int) *Spec {
 			}
 			if !sp.Tick && rng.Intn(2) == 0 {
 				b.add(Step{Op: "block", Async: true})
-				sp.triggerKinds["racing"] = true
+				sp.TriggerKinds["racing"] = true
 			}
 			if sp.StopPlan == "inithold" && lastIter {
 				b.add(Step{Op: "stop", Async: true})
@@ -571,7 +571,7 @@ func Gen(seed int64, i int) *Spec {
 		case "racing":
 			if !sp.Tick && rng.Intn(2) == 0 {
 				b.add(Step{Op: "block", Async: true})
-				sp.triggerKinds["racing"] = true
+				sp.TriggerKinds["racing"] = true
 			}
 			if rng.Intn(2) == 0 {
 				b.confirm(b.confirmTarget(), true, "racing-stop")
@@ -591,7 +591,7 @@ func Gen(seed int64, i int) *Spec {
 		case "after-trigger":
 			if !sp.Tick {
 				b.add(Step{Op: "block"})
-				sp.triggerKinds["idle"] = true
+				sp.TriggerKinds["idle"] = true
 			}
 			b.add(Step{Op: "stop"})
 			b.stopped = true
@@ -620,7 +620,7 @@ func (b *builder) postStopOpsNoJoin() {
 			b.add(Step{Op: "submit", Tx: b.rng.Intn(len(b.sp.Txs)), Async: true})
 		} else {
 			b.add(Step{Op: "confirm", Tx: b.confirmTarget(), Async: true})
-			b.sp.confirmTimings["racing-stop"] = true
+			b.sp.ConfirmTimings["racing-stop"] = true
 		}
 	}
 }
@@ -680,6 +680,6 @@ func (sp *Spec) Fingerprint() string {
 		mix["mapped"] = true
 	}
 	return fmt.Sprintf("%s/n=%s/out=%s/trig=%s/stop=%s/conf=%s",
-		sp.Shape, nBucket(len(sp.Txs)), setString(mix), setString(sp.triggerKinds),
-		sp.StopPlan, setString(sp.confirmTimings))
+		sp.Shape, nBucket(len(sp.Txs)), setString(mix), setString(sp.TriggerKinds),
+		sp.StopPlan, setString(sp.ConfirmTimings))
 }
